@@ -276,3 +276,694 @@ Proof.
   unfold get_interned in E. apply find_from_some in E. destruct E as [_ [Hk _]].
   exfalso. apply H. eapply nth_error_In; eauto.
 Qed.
+
+(* ------------------------------------------------------------------ *)
+(* store accessors and frame lemmas *)
+
+Definition cstate (s : store) (id : N) : option tstate := option_map st (nthN (cells s) id).
+Definition cowner (s : store) (id : N) : option N := option_map owner (nthN (cells s) id).
+Definition gcond (s : store) (g : N) : option (option N) := option_map cond (nthN (guards s) g).
+Definition gchk (s : store) (g : N) : option bool := option_map checked (nthN (guards s) g).
+
+Lemma guards_set_state s id t : guards (set_state s id t) = guards s.
+Proof. unfold set_state. destruct (nthN (cells s) id); reflexivity. Qed.
+
+Lemma cells_set_checked s g b : cells (set_checked s g b) = cells s.
+Proof. unfold set_checked. destruct (nthN (guards s) g); reflexivity. Qed.
+
+Lemma cstate_set_same s id t : cstate s id <> None -> cstate (set_state s id t) id = Some t.
+Proof.
+  unfold cstate, set_state. destruct (nthN (cells s) id) as [c|] eqn:E; [|simpl; congruence].
+  intros _. simpl. erewrite nthN_setN_same by exact E. reflexivity.
+Qed.
+
+Lemma cstate_set_other s id id' t : id' <> id -> cstate (set_state s id t) id' = cstate s id'.
+Proof.
+  intros H. unfold cstate, set_state. destruct (nthN (cells s) id) as [c|] eqn:E; [|reflexivity].
+  simpl. rewrite nthN_setN_other by congruence. reflexivity.
+Qed.
+
+Lemma cowner_set s id t id' : cowner (set_state s id t) id' = cowner s id'.
+Proof.
+  unfold cowner, set_state. destruct (nthN (cells s) id) as [c|] eqn:E; [|reflexivity]. simpl.
+  destruct (N.eq_dec id' id) as [->|Hne].
+  - erewrite nthN_setN_same by exact E. rewrite E. reflexivity.
+  - rewrite nthN_setN_other by congruence. reflexivity.
+Qed.
+
+Lemma gcond_set_state s id t g : gcond (set_state s id t) g = gcond s g.
+Proof. unfold gcond. rewrite guards_set_state. reflexivity. Qed.
+Lemma gchk_set_state s id t g : gchk (set_state s id t) g = gchk s g.
+Proof. unfold gchk. rewrite guards_set_state. reflexivity. Qed.
+Lemma cstate_set_checked s g b id : cstate (set_checked s g b) id = cstate s id.
+Proof. unfold cstate. rewrite cells_set_checked. reflexivity. Qed.
+Lemma cowner_set_checked s g b id : cowner (set_checked s g b) id = cowner s id.
+Proof. unfold cowner. rewrite cells_set_checked. reflexivity. Qed.
+
+Lemma gcond_set_checked s g b g' : gcond (set_checked s g b) g' = gcond s g'.
+Proof.
+  unfold gcond, set_checked. destruct (nthN (guards s) g) as [gd|] eqn:E; [|reflexivity]. simpl.
+  destruct (N.eq_dec g' g) as [->|Hne].
+  - erewrite nthN_setN_same by exact E. rewrite E. reflexivity.
+  - rewrite nthN_setN_other by congruence. reflexivity.
+Qed.
+
+Lemma gchk_set_checked_same s g b : gchk s g <> None -> gchk (set_checked s g b) g = Some b.
+Proof.
+  unfold gchk, set_checked. destruct (nthN (guards s) g) as [gd|] eqn:E; [|simpl; congruence].
+  intros _. simpl. erewrite nthN_setN_same by exact E. reflexivity.
+Qed.
+
+Lemma gchk_set_checked_other s g b g' : g' <> g -> gchk (set_checked s g b) g' = gchk s g'.
+Proof.
+  intros H. unfold gchk, set_checked. destruct (nthN (guards s) g) as [gd|] eqn:E; [|reflexivity].
+  simpl. rewrite nthN_setN_other by congruence. reflexivity.
+Qed.
+
+Lemma cstate_of s id c : nthN (cells s) id = Some c -> cstate s id = Some (st c).
+Proof. intros H. unfold cstate. rewrite H. reflexivity. Qed.
+Lemma cowner_of s id c : nthN (cells s) id = Some c -> cowner s id = Some (owner c).
+Proof. intros H. unfold cowner. rewrite H. reflexivity. Qed.
+Lemma cowner_none s id : nthN (cells s) id = None <-> cowner s id = None.
+Proof. unfold cowner. destruct (nthN (cells s) id); simpl; split; congruence. Qed.
+Lemma gcond_none s g : nthN (guards s) g = None <-> gcond s g = None.
+Proof. unfold gcond. destruct (nthN (guards s) g); simpl; split; congruence. Qed.
+
+(* ------------------------------------------------------------------ *)
+(* the meaning of a store: memo-free, limit-free evaluation relative to a base store *)
+
+Inductive task := TE (e : expr) | TC (id : N).
+
+Definition not_ok (r : result) : Prop := match r with Ok _ => False | _ => True end.
+
+Section Meaning.
+  Variable s0 : store.
+
+  Definition guard_ok (g : N) : Prop :=
+    exists gd, nthN (guards s0) g = Some gd /\ (checked gd = true \/ cond gd = None).
+
+  (* successful evaluation, with the height of its derivation *)
+  Inductive Val : nat -> task -> N -> Prop :=
+  | V_const n : Val 0 (TE (EConst n)) n
+  | V_add h1 h2 a b x y : Val h1 (TE a) x -> Val h2 (TE b) y -> Val (S (max h1 h2)) (TE (EAdd a b)) (x + y)
+  | V_force h id c v : nthN (cells s0) id = Some c -> guard_ok (owner c) -> Val h (TC id) v ->
+      Val (S h) (TE (EForce id)) v
+  | V_done id c v : nthN (cells s0) id = Some c -> st c = Done v -> Val 0 (TC id) v
+  | V_pend h id c b v : nthN (cells s0) id = Some c -> st c = Pending b -> Val h (TE b) v ->
+      Val (S h) (TC id) v.
+
+  (* the cells a successful evaluation goes through *)
+  Inductive Needs : task -> N -> Prop :=
+  | N_addl a b j : Needs (TE a) j -> Needs (TE (EAdd a b)) j
+  | N_addr a b j : Needs (TE b) j -> Needs (TE (EAdd a b)) j
+  | N_force id j : Needs (TC id) j -> Needs (TE (EForce id)) j
+  | N_self id : Needs (TC id) id
+  | N_pend id c b j : nthN (cells s0) id = Some c -> st c = Pending b -> Needs (TE b) j -> Needs (TC id) j.
+
+  Ltac same_cell :=
+    repeat match goal with
+    | H1 : nthN ?l ?i = Some _, H2 : nthN ?l ?i = Some _ |- _ => rewrite H1 in H2; inversion H2; subst; clear H2
+    | H1 : nthN ?l ?i = Some _, H2 : nthN ?l ?i = None |- _ => rewrite H1 in H2; discriminate H2
+    | H1 : st ?c = _, H2 : st ?c = _ |- _ => rewrite H1 in H2; inversion H2; subst; clear H2
+    end.
+
+  Lemma Val_det : forall h t v, Val h t v -> forall h' v', Val h' t v' -> h = h' /\ v = v'.
+  Proof.
+    induction 1; intros h' v' H'; inversion H'; subst; clear H'; same_cell;
+      repeat match goal with
+      | IH : forall h' v', Val h' ?t v' -> _, H : Val _ ?t _ |- _ =>
+          destruct (IH _ _ H) as [? ?]; subst; clear IH
+      end; try (split; reflexivity).
+  Qed.
+
+  Lemma Needs_height : forall h t v, Val h t v -> forall j, Needs t j ->
+    exists h' v', (h' <= h)%nat /\ Val h' (TC j) v'.
+  Proof.
+    induction 1; intros j HN; inversion HN; subst; clear HN; same_cell;
+      try match goal with
+      | IH : forall j, Needs ?t j -> _, H : Needs ?t _ |- _ =>
+          destruct (IH _ H) as [h' [v' [Hle Hv]]]; exists h', v'; split; [lia | exact Hv]
+      end.
+    - exists 0%nat, v. split; [lia | econstructor; eassumption].
+    - exists (S h), v. split; [lia | econstructor; eassumption].
+  Qed.
+
+  Lemma body_not_needs_self : forall h id c b v, nthN (cells s0) id = Some c -> st c = Pending b ->
+    Val h (TE b) v -> ~ Needs (TE b) id.
+  Proof.
+    intros h id c b v Hc Hs Hv HN.
+    destruct (Needs_height _ _ _ Hv _ HN) as [h' [v' [Hle Hv']]].
+    assert (Hv2 : Val (S h) (TC id) v) by (eapply V_pend; eassumption).
+    destruct (Val_det _ _ _ Hv2 _ _ Hv') as [Heq _]. lia.
+  Qed.
+
+  (* evaluation with a path of cells under evaluation: every outcome but StackOverflow *)
+  Inductive Den : list N -> task -> result -> Prop :=
+  | D_const P n : Den P (TE (EConst n)) (Ok n)
+  | D_fail P m : Den P (TE (EFail m)) (Err (EUser m))
+  | D_add_ok P a b x y : Den P (TE a) (Ok x) -> Den P (TE b) (Ok y) -> Den P (TE (EAdd a b)) (Ok (x + y))
+  | D_add_l P a b r : Den P (TE a) r -> not_ok r -> Den P (TE (EAdd a b)) r
+  | D_add_r P a b x r : Den P (TE a) (Ok x) -> Den P (TE b) r -> not_ok r -> Den P (TE (EAdd a b)) r
+  | D_force_nocell P id : nthN (cells s0) id = None ->
+      Den P (TE (EForce id)) (Panic "ThunkMachine:force:no such cell")
+  | D_force_noguard P id c : nthN (cells s0) id = Some c -> nthN (guards s0) (owner c) = None ->
+      Den P (TE (EForce id)) (Panic "ThunkMachine:force:no such object")
+  | D_force_assert P id c gd m : nthN (cells s0) id = Some c -> nthN (guards s0) (owner c) = Some gd ->
+      checked gd = false -> cond gd = Some m -> Den P (TE (EForce id)) (Err (EAssert m))
+  | D_force P id c r : nthN (cells s0) id = Some c -> guard_ok (owner c) -> Den P (TC id) r ->
+      Den P (TE (EForce id)) r
+  | D_nocell P id : nthN (cells s0) id = None -> Den P (TC id) (Panic "ThunkMachine:do_thunk:no such cell")
+  | D_done P id c v : nthN (cells s0) id = Some c -> st c = Done v -> Den P (TC id) (Ok v)
+  | D_inprog P id c : nthN (cells s0) id = Some c -> st c = InProgress -> Den P (TC id) (Err EInfRec)
+  | D_cycle P id c b : nthN (cells s0) id = Some c -> st c = Pending b -> In id P -> Den P (TC id) (Err EInfRec)
+  | D_pend P id c b r : nthN (cells s0) id = Some c -> st c = Pending b -> ~ In id P ->
+      Den (id :: P) (TE b) r -> Den P (TC id) r.
+
+  Lemma guard_ok_excl : forall g gd m, guard_ok g -> nthN (guards s0) g = Some gd ->
+    checked gd = false -> cond gd = Some m -> False.
+  Proof. intros g gd m [gd' [H1 [H2|H2]]] H3 H4 H5; rewrite H1 in H3; inversion H3; subst; congruence. Qed.
+
+  Lemma Den_det : forall P t r, Den P t r -> forall r', Den P t r' -> r = r'.
+  Proof.
+    induction 1; intros r' H'; inversion H'; subst; clear H'; same_cell;
+      try reflexivity; try contradiction;
+      try (exfalso; eapply guard_ok_excl; eassumption);
+      try (match goal with H : guard_ok _ |- _ => destruct H as [gd' [Hg' _]]; congruence end);
+      repeat match goal with
+      | IH : forall r', Den ?P ?t r' -> _ = r', H : Den ?P ?t _ |- _ =>
+          let E := fresh "E" in pose proof (IH _ H) as E; clear IH;
+          try (inversion E; subst); try (subst)
+      end; try reflexivity; try (simpl in *; contradiction); try congruence.
+  Qed.
+
+  Lemma Den_ok_Val : forall P t r, Den P t r -> forall v, r = Ok v -> exists h, Val h t v.
+  Proof.
+    induction 1; intros v0 E; try discriminate E; subst;
+      try (simpl in *; contradiction).
+    - inversion E; subst. exists 0%nat. constructor.
+    - inversion E; subst. destruct (IHDen1 _ eq_refl) as [h1 H1]. destruct (IHDen2 _ eq_refl) as [h2 H2].
+      eexists. econstructor; eassumption.
+    - destruct (IHDen _ eq_refl) as [h Hh]. eexists. econstructor; eassumption.
+    - inversion E; subst. exists 0%nat. econstructor; eassumption.
+    - destruct (IHDen _ eq_refl) as [h Hh]. eexists. eapply V_pend; eassumption.
+  Qed.
+
+  Lemma Val_Den : forall h t v, Val h t v -> forall P, (forall j, Needs t j -> ~ In j P) -> Den P t (Ok v).
+  Proof.
+    induction 1; intros P HP.
+    - constructor.
+    - apply D_add_ok; [apply IHVal1 | apply IHVal2]; intros j Hj; apply HP; [apply N_addl | apply N_addr]; exact Hj.
+    - eapply D_force; [eassumption | assumption |]. apply IHVal. intros j Hj. apply HP. apply N_force. exact Hj.
+    - eapply D_done; eassumption.
+    - eapply D_pend; [eassumption | eassumption | apply HP; apply N_self |].
+      apply IHVal. intros j Hj [Hin|Hin].
+      + subst j. eapply body_not_needs_self; eassumption.
+      + eapply HP; [eapply N_pend; eassumption | exact Hin].
+  Qed.
+End Meaning.
+
+(* ------------------------------------------------------------------ *)
+(* the machine against the meaning of the base store *)
+
+Section Sim.
+  Variable s0 : store.
+  Variable restore : bool.
+
+  Definition is_done (s : store) (j : N) : Prop := exists w, cstate s j = Some (Done w).
+
+  Definition DoneMono (s s' : store) : Prop :=
+    forall j w, cstate s j = Some (Done w) -> cstate s' j = Some (Done w).
+
+  Lemma DoneMono_refl s : DoneMono s s.
+  Proof. intros j w H; exact H. Qed.
+  Lemma DoneMono_trans a b c : DoneMono a b -> DoneMono b c -> DoneMono a c.
+  Proof. intros H1 H2 j w H. apply H2, H1, H. Qed.
+  Lemma is_done_mono s s' j : DoneMono s s' -> is_done s j -> is_done s' j.
+  Proof. intros H [w Hw]. exists w. apply H, Hw. Qed.
+
+  (* a store reached from [s0] by the machine, while the cells of [P] are under evaluation *)
+  Record Inv (P : list N) (s : store) : Prop := {
+    inv_owner : forall id, cowner s id = cowner s0 id;
+    inv_cond : forall g, gcond s g = gcond s0 g;
+    inv_cell : forall id,
+        cstate s id = cstate s0 id
+        \/ (exists b, cstate s0 id = Some (Pending b) /\ cstate s id = Some InProgress /\ In id P)
+        \/ (exists b v h, cstate s0 id = Some (Pending b) /\ cstate s id = Some (Done v) /\
+              Val s0 h (TC id) v /\ forall j, Needs s0 (TC id) j -> is_done s j);
+    inv_path : forall id, In id P ->
+        cstate s id = Some InProgress /\ exists b, cstate s0 id = Some (Pending b);
+    inv_guard : forall g, gchk s g = gchk s0 g \/ (gcond s0 g = Some None /\ gchk s g = Some true)
+  }.
+
+  Lemma Inv_base : Inv [] s0.
+  Proof. constructor; intros; auto. destruct H. Qed.
+
+  Lemma pending_is_base P s id b : Inv P s -> cstate s id = Some (Pending b) ->
+    cstate s0 id = Some (Pending b) /\ ~ In id P.
+  Proof.
+    intros HI Hs. split.
+    - destruct (inv_cell _ _ HI id) as [H|[[b' [_ [H _]]]|[b' [v [h [_ [H _]]]]]]]; congruence.
+    - intros Hin. destruct (inv_path _ _ HI id Hin) as [H _]. congruence.
+  Qed.
+
+  Lemma Inv_start P s id b : Inv P s -> cstate s id = Some (Pending b) ->
+    Inv (id :: P) (set_state s id InProgress).
+  Proof.
+    intros HI Hs. destruct (pending_is_base _ _ _ _ HI Hs) as [H0 HnP].
+    assert (Hne : cstate s id <> None) by congruence.
+    assert (Hd : forall j, is_done s j -> is_done (set_state s id InProgress) j).
+    { intros j [w Hw]. exists w. rewrite cstate_set_other; [exact Hw | congruence]. }
+    constructor.
+    - intros id'. rewrite cowner_set. apply (inv_owner _ _ HI).
+    - intros g. rewrite gcond_set_state. apply (inv_cond _ _ HI).
+    - intros id'. destruct (N.eq_dec id' id) as [->|Hneq].
+      + right; left. exists b. rewrite cstate_set_same by exact Hne. repeat split; auto. left; reflexivity.
+      + rewrite cstate_set_other by exact Hneq.
+        destruct (inv_cell _ _ HI id') as [H|[[b' [H1 [H2 H3]]]|[b' [v [h [H1 [H2 [H3 H4]]]]]]]].
+        * left; exact H.
+        * right; left. exists b'. repeat split; auto. right; exact H3.
+        * right; right. exists b', v, h. repeat split; auto.
+    - intros id' [<-|Hin].
+      + rewrite cstate_set_same by exact Hne. split; [reflexivity | exists b; exact H0].
+      + destruct (inv_path _ _ HI id' Hin) as [H1 H2].
+        rewrite cstate_set_other; [split; assumption | congruence].
+    - intros g. rewrite gchk_set_state. apply (inv_guard _ _ HI).
+  Qed.
+
+  Lemma Inv_finish P s id b v h : Inv (id :: P) s -> ~ In id P ->
+    cstate s0 id = Some (Pending b) -> Val s0 h (TE b) v ->
+    (forall j, Needs s0 (TE b) j -> is_done s j) ->
+    Inv P (set_state s id (Done v)).
+  Proof.
+    intros HI HnP H0 Hv Hcl.
+    destruct (inv_path _ _ HI id (or_introl eq_refl)) as [Hip _].
+    assert (Hne : cstate s id <> None) by congruence.
+    assert (Hd : forall j, is_done s j -> is_done (set_state s id (Done v)) j).
+    { intros j [w Hw]. exists w. rewrite cstate_set_other; [exact Hw | congruence]. }
+    assert (Hself : is_done (set_state s id (Done v)) id).
+    { exists v. apply cstate_set_same; exact Hne. }
+    unfold cstate in H0. destruct (nthN (cells s0) id) as [c0|] eqn:Ec0; [|discriminate].
+    simpl in H0. inversion H0 as [Hst0].
+    constructor.
+    - intros id'. rewrite cowner_set. apply (inv_owner _ _ HI).
+    - intros g. rewrite gcond_set_state. apply (inv_cond _ _ HI).
+    - intros id'. destruct (N.eq_dec id' id) as [->|Hneq].
+      + right; right. exists b, v, (S h). rewrite cstate_set_same by exact Hne.
+        split; [unfold cstate; rewrite Ec0; simpl; congruence|]. split; [reflexivity|]. split.
+        * eapply V_pend; eassumption.
+        * intros j HN. inversion HN; subst; [exact Hself|].
+          rewrite Ec0 in H1. inversion H1; subst. rewrite Hst0 in H2. inversion H2; subst.
+          apply Hd, Hcl. assumption.
+      + rewrite cstate_set_other by exact Hneq.
+        destruct (inv_cell _ _ HI id') as [H|[[b' [H1 [H2 H3]]]|[b' [v' [h' [H1 [H2 [H3 H4]]]]]]]].
+        * left; exact H.
+        * right; left. exists b'. repeat split; auto. destruct H3 as [H3|H3]; [congruence | exact H3].
+        * right; right. exists b', v', h'. repeat split; auto.
+    - intros id' Hin. destruct (inv_path _ _ HI id' (or_intror Hin)) as [H1 H2].
+      rewrite cstate_set_other; [split; assumption | intros ->; contradiction].
+    - intros g. rewrite gchk_set_state. apply (inv_guard _ _ HI).
+  Qed.
+
+  Lemma Inv_restore P s id b : Inv (id :: P) s -> ~ In id P ->
+    cstate s0 id = Some (Pending b) -> Inv P (set_state s id (Pending b)).
+  Proof.
+    intros HI HnP H0.
+    destruct (inv_path _ _ HI id (or_introl eq_refl)) as [Hip _].
+    assert (Hne : cstate s id <> None) by congruence.
+    assert (Hd : forall j, is_done s j -> is_done (set_state s id (Pending b)) j).
+    { intros j [w Hw]. exists w. rewrite cstate_set_other; [exact Hw | congruence]. }
+    constructor.
+    - intros id'. rewrite cowner_set. apply (inv_owner _ _ HI).
+    - intros g. rewrite gcond_set_state. apply (inv_cond _ _ HI).
+    - intros id'. destruct (N.eq_dec id' id) as [->|Hneq].
+      + left. rewrite cstate_set_same by exact Hne. congruence.
+      + rewrite cstate_set_other by exact Hneq.
+        destruct (inv_cell _ _ HI id') as [H|[[b' [H1 [H2 H3]]]|[b' [v' [h' [H1 [H2 [H3 H4]]]]]]]].
+        * left; exact H.
+        * right; left. exists b'. repeat split; auto. destruct H3 as [H3|H3]; [congruence | exact H3].
+        * right; right. exists b', v', h'. repeat split; auto.
+    - intros id' Hin. destruct (inv_path _ _ HI id' (or_intror Hin)) as [H1 H2].
+      rewrite cstate_set_other; [split; assumption | intros ->; contradiction].
+    - intros g. rewrite gchk_set_state. apply (inv_guard _ _ HI).
+  Qed.
+
+  Lemma Inv_same_cells P s s' : Inv P s -> cells s' = cells s ->
+    (forall g, gcond s' g = gcond s g) ->
+    (forall g, gchk s' g = gchk s0 g \/ (gcond s0 g = Some None /\ gchk s' g = Some true)) ->
+    Inv P s'.
+  Proof.
+    intros HI Hc Hg Hk.
+    assert (Hcs : forall id, cstate s' id = cstate s id) by (intros; unfold cstate; rewrite Hc; reflexivity).
+    constructor.
+    - intros id. unfold cowner. rewrite Hc. apply (inv_owner _ _ HI).
+    - intros g. rewrite Hg. apply (inv_cond _ _ HI).
+    - intros id. rewrite Hcs.
+      destruct (inv_cell _ _ HI id) as [H|[H|[b' [v' [h' [H1 [H2 [H3 H4]]]]]]]]; auto.
+      right; right. exists b', v', h'. repeat split; auto.
+      intros j HN. destruct (H4 j HN) as [w Hw]. exists w. rewrite Hcs. exact Hw.
+    - intros id Hin. rewrite Hcs. apply (inv_path _ _ HI id Hin).
+    - exact Hk.
+  Qed.
+
+  Lemma Inv_set_checked P s g b : Inv P s -> gchk s g <> None ->
+    (gchk s0 g = Some b \/ (gcond s0 g = Some None /\ b = true)) ->
+    Inv P (set_checked s g b).
+  Proof.
+    intros HI Hne Hb. constructor.
+    - intros id. rewrite cowner_set_checked. apply (inv_owner _ _ HI).
+    - intros g'. rewrite gcond_set_checked. apply (inv_cond _ _ HI).
+    - intros id. rewrite cstate_set_checked.
+      destruct (inv_cell _ _ HI id) as [H|[H|[b' [v' [h' [H1 [H2 [H3 H4]]]]]]]]; auto.
+      right; right. exists b', v', h'. repeat split; auto.
+      intros j HN. destruct (H4 j HN) as [w Hw]. exists w. rewrite cstate_set_checked. exact Hw.
+    - intros id Hin. rewrite cstate_set_checked. apply (inv_path _ _ HI id Hin).
+    - intros g'. destruct (N.eq_dec g' g) as [->|Hneq].
+      + rewrite gchk_set_checked_same by exact Hne.
+        destruct Hb as [Hb|[Hb ->]]; [left; congruence | right; split; [exact Hb | reflexivity]].
+      + rewrite gchk_set_checked_other by exact Hneq. apply (inv_guard _ _ HI).
+  Qed.
+
+  Lemma DoneMono_set_checked s g b : DoneMono s (set_checked s g b).
+  Proof. intros j w H. rewrite cstate_set_checked. exact H. Qed.
+
+  (* check_object_asserts *)
+  Lemma check_guard_spec P s g s1 o : Inv P s -> check_guard restore s g = (s1, o) ->
+    DoneMono s s1 /\
+    match o with
+    | None => Inv P s1 /\ guard_ok s0 g
+    | Some e => (restore = true -> Inv P s1) /\
+        ((nthN (guards s0) g = None /\ e = Panic "ThunkMachine:force:no such object") \/
+         (exists gd m, nthN (guards s0) g = Some gd /\ checked gd = false /\ cond gd = Some m /\
+                       e = Err (EAssert m)))
+    end.
+  Proof.
+    intros HI H. unfold check_guard in H.
+    pose proof (inv_cond _ _ HI g) as Hc. pose proof (inv_guard _ _ HI g) as Hg.
+    unfold gcond, gchk in Hc, Hg.
+    destruct (nthN (guards s) g) as [gd|] eqn:E.
+    - destruct (nthN (guards s0) g) as [gd0|] eqn:E0; simpl in Hc, Hg; [|discriminate].
+      inversion Hc as [Hcond]. clear Hc.
+      assert (Hne : gchk s g <> None) by (unfold gchk; rewrite E; simpl; congruence).
+      destruct (checked gd) eqn:Ek.
+      + inversion H; subst. split; [apply DoneMono_refl|]. split; [exact HI|].
+        exists gd0. split; [exact E0|].
+        destruct Hg as [Hg|[Hg _]]; [left; congruence | right; congruence].
+      + assert (Hk0 : checked gd0 = false) by (destruct Hg as [Hg|[_ Hg]]; congruence).
+        destruct (cond gd) as [m|] eqn:Em.
+        * inversion H; subst. split.
+          { destruct restore; [|apply DoneMono_set_checked].
+            eapply DoneMono_trans; apply DoneMono_set_checked. }
+          split.
+          { intros ->. apply (Inv_same_cells P s); [exact HI | | |].
+            - rewrite !cells_set_checked. reflexivity.
+            - intros g'. rewrite !gcond_set_checked. reflexivity.
+            - intros g'. destruct (N.eq_dec g' g) as [->|Hneq].
+              + left. rewrite gchk_set_checked_same.
+                * unfold gchk. rewrite E0. simpl. congruence.
+                * rewrite gchk_set_checked_same by exact Hne. congruence.
+              + rewrite !gchk_set_checked_other by exact Hneq. apply (inv_guard _ _ HI). }
+          right. exists gd0, m. repeat split; congruence.
+        * inversion H; subst. split; [apply DoneMono_set_checked|]. split.
+          { apply Inv_set_checked; [exact HI | exact Hne |]. right. split; [|reflexivity].
+            unfold gcond. rewrite E0. simpl. congruence. }
+          exists gd0. split; [exact E0 | right; congruence].
+    - inversion H; subst. split; [apply DoneMono_refl|]. split; [intros _; exact HI|].
+      left. split; [|reflexivity]. destruct (nthN (guards s0) g); [discriminate | reflexivity].
+  Qed.
+
+  Definition spec_out (P : list N) (t : task) (s s' : store) (r : result) : Prop :=
+    DoneMono s s' /\
+    ((restore = true \/ exists v, r = Ok v) -> Inv P s') /\
+    (r = Err EOverflow \/ Den s0 P t r) /\
+    (forall v, r = Ok v -> forall j, Needs s0 t j -> is_done s' j).
+
+  Definition ev_spec (ev : store -> expr -> store * result) : Prop :=
+    forall P e s s' r, Inv P s -> ev s e = (s', r) -> spec_out P (TE e) s s' r.
+  Definition frc_spec (frc : store -> N -> store * result) : Prop :=
+    forall P id s s' r, Inv P s -> frc s id = (s', r) -> spec_out P (TE (EForce id)) s s' r.
+
+  Lemma spec_out_same P t s r : Inv P s -> (r = Err EOverflow \/ Den s0 P t r) -> not_ok r ->
+    spec_out P t s s r.
+  Proof.
+    intros HI HD Hn. split; [apply DoneMono_refl|]. split; [intros _; exact HI|]. split; [exact HD|].
+    intros v ->. simpl in Hn. contradiction.
+  Qed.
+
+  Lemma eval_with_spec frc gas : frc_spec frc -> ev_spec (eval_with frc gas).
+  Proof.
+    intros Hf P e. revert P. induction e as [n|m|id|a IHa b IHb]; intros P s s' r HI H; simpl in H.
+    - inversion H; subst. split; [apply DoneMono_refl|]. split; [intros _; exact HI|].
+      split; [right; constructor|]. intros v _ j HN. inversion HN.
+    - destruct gas; inversion H; subst; apply spec_out_same; simpl; auto. right; constructor.
+    - eapply Hf; eassumption.
+    - destruct (eval_with frc gas s a) as [s1 ra] eqn:Ea.
+      destruct (IHa P s s1 ra HI Ea) as [Hm1 [Hi1 [Hd1 Hn1]]].
+      destruct ra as [x| | |].
+      2-4: inversion H; subst; (split; [exact Hm1|]); (split; [exact Hi1|]);
+           (split; [destruct Hd1 as [Hd1|Hd1]; [left; exact Hd1 | right; apply D_add_l; [exact Hd1 | exact I]]|]);
+           intros v Hv; discriminate Hv.
+      assert (HI1 : Inv P s1) by (apply Hi1; right; eexists; reflexivity).
+      destruct Hd1 as [Hd1|Hd1]; [discriminate Hd1|].
+      destruct (eval_with frc gas s1 b) as [s2 rb] eqn:Eb.
+      destruct (IHb P s1 s2 rb HI1 Eb) as [Hm2 [Hi2 [Hd2 Hn2]]].
+      destruct rb as [y| | |].
+      2-4: inversion H; subst; (split; [eapply DoneMono_trans; eassumption|]); (split; [exact Hi2|]);
+           (split; [destruct Hd2 as [Hd2|Hd2]; [left; exact Hd2 | right; eapply D_add_r; [exact Hd1 | exact Hd2 | exact I]]|]);
+           intros v Hv; discriminate Hv.
+      inversion H; subst. split; [eapply DoneMono_trans; eassumption|].
+      split; [intros _; apply Hi2; right; eexists; reflexivity|].
+      destruct Hd2 as [Hd2|Hd2]; [discriminate Hd2|].
+      split; [right; apply D_add_ok; assumption|].
+      intros v _ j HN. inversion HN; subst.
+      + eapply is_done_mono; [exact Hm2 | eapply Hn1; [reflexivity | assumption]].
+      + eapply Hn2; [reflexivity | assumption].
+  Qed.
+
+  Lemma base_state P s id c : Inv P s -> nthN (cells s) id = Some c ->
+    exists c0, nthN (cells s0) id = Some c0 /\ owner c0 = owner c.
+  Proof.
+    intros HI Hc. pose proof (inv_owner _ _ HI id) as H. unfold cowner in H. rewrite Hc in H. simpl in H.
+    destruct (nthN (cells s0) id) as [c0|]; simpl in H; [|discriminate].
+    exists c0. split; [reflexivity | congruence].
+  Qed.
+
+  Lemma do_thunk_spec ev : ev_spec ev -> forall P id s s' r, Inv P s ->
+    do_thunk restore ev s id = (s', r) ->
+    spec_out P (TC id) s s' r /\ (forall v, r = Ok v -> cstate s' id = Some (Done v)).
+  Proof.
+    intros Hev P id s s' r HI H. unfold do_thunk in H.
+    destruct (nthN (cells s) id) as [c|] eqn:Ec.
+    2:{ inversion H; subst. split; [|intros v Hv; discriminate Hv].
+        apply spec_out_same; simpl; auto. right. apply D_nocell.
+        apply cowner_none. rewrite <- (inv_owner _ _ HI). apply cowner_none. exact Ec. }
+    pose proof (cstate_of _ _ _ Ec) as Hcs.
+    destruct (base_state _ _ _ _ HI Ec) as [c0 [Ec0 _]].
+    pose proof (cstate_of _ _ _ Ec0) as Hcs0.
+    destruct (st c) as [b| |v] eqn:Est.
+    - (* Pending *)
+      destruct (pending_is_base _ _ _ _ HI Hcs) as [H0 HnP].
+      assert (Hst0 : st c0 = Pending b) by congruence.
+      pose proof (Inv_start _ _ _ _ HI Hcs) as HI1.
+      destruct (ev (set_state s id InProgress) b) as [s2 rb] eqn:Eev.
+      destruct (Hev (id :: P) b _ s2 rb HI1 Eev) as [Hm [Hi [Hd Hn]]].
+      assert (Hm0 : DoneMono s (set_state s id InProgress)).
+      { intros j w Hj. rewrite cstate_set_other; [exact Hj | congruence]. }
+      destruct (inv_path _ _ HI1 id (or_introl eq_refl)) as [_ _].
+      destruct rb as [v| | |].
+      2-4: inversion H; subst; (split; [|intros v Hv; discriminate Hv]); split;
+           [ destruct restore;
+             [ eapply DoneMono_trans; [exact Hm0|]; eapply DoneMono_trans; [exact Hm|];
+               intros j w Hj; rewrite cstate_set_other; [exact Hj|];
+               assert (HI2 : Inv (id :: P) s2) by (apply Hi; left; reflexivity);
+               destruct (inv_path _ _ HI2 id (or_introl eq_refl)) as [Hp _]; congruence
+             | eapply DoneMono_trans; eassumption ]
+           | split;
+             [ intros [Hr|[v Hv]]; [|discriminate Hv]; rewrite Hr; apply Inv_restore;
+               [apply Hi; left; exact Hr | exact HnP | exact H0]
+             | split;
+               [ destruct Hd as [Hd|Hd]; [left; exact Hd | right; eapply D_pend; eassumption]
+               | intros v Hv; discriminate Hv ] ] ].
+      assert (HI2 : Inv (id :: P) s2) by (apply Hi; right; eexists; reflexivity).
+      destruct Hd as [Hd|Hd]; [discriminate Hd|].
+      destruct (Den_ok_Val _ _ _ _ Hd v eq_refl) as [h Hv].
+      destruct (inv_path _ _ HI2 id (or_introl eq_refl)) as [Hp _].
+      assert (Hne : cstate s2 id <> None) by congruence.
+      inversion H; subst. split.
+      + split.
+        { eapply DoneMono_trans; [exact Hm0|]. eapply DoneMono_trans; [exact Hm|].
+          intros j w Hj. rewrite cstate_set_other; [exact Hj | congruence]. }
+        split.
+        { intros _. eapply Inv_finish; try eassumption. intros j HN. eapply Hn; [reflexivity | exact HN]. }
+        split; [right; eapply D_pend; eassumption|].
+        intros v' _ j HN. inversion HN; subst.
+        * exists v. apply cstate_set_same; exact Hne.
+        * rewrite Ec0 in H2. inversion H2; subst. rewrite Hst0 in H3. inversion H3; subst.
+          destruct (Hn v eq_refl j H4) as [w Hw]. exists w.
+          rewrite cstate_set_other; [exact Hw | congruence].
+      + intros v' Hv'. inversion Hv'; subst. apply cstate_set_same; exact Hne.
+    - (* InProgress *)
+      inversion H; subst. split; [|intros v Hv; discriminate Hv].
+      apply spec_out_same; simpl; auto. right.
+      destruct (inv_cell _ _ HI id) as [Hc|[[b [H1 [H2 H3]]]|[b [v [h [H1 [H2 _]]]]]]].
+      + eapply D_inprog; [exact Ec0|]. rewrite Hcs, Hcs0 in Hc. congruence.
+      + eapply D_cycle with (b := b); [exact Ec0 | congruence | exact H3].
+      + congruence.
+    - (* Done *)
+      inversion H; subst. split; [|intros v' Hv'; inversion Hv'; subst; exact Hcs].
+      split; [apply DoneMono_refl|]. split; [intros _; exact HI|].
+      destruct (inv_cell _ _ HI id) as [Hc|[[b [H1 [H2 H3]]]|[b [v' [h [H1 [H2 [H3 H4]]]]]]]].
+      + split.
+        * right. eapply D_done; [exact Ec0|]. rewrite Hcs, Hcs0 in Hc. congruence.
+        * intros v' _ j HN. inversion HN; subst; [exists v; exact Hcs|].
+          rewrite Ec0 in H1. inversion H1; subst. rewrite Hcs, Hcs0 in Hc. congruence.
+      + congruence.
+      + assert (v' = v) by congruence. subst v'. split.
+        * right. eapply Val_Den; [exact H3|]. intros j HN Hin.
+          destruct (H4 j HN) as [w Hw]. destruct (inv_path _ _ HI j Hin) as [Hp _]. congruence.
+        * intros v' _ j HN. apply H4. exact HN.
+  Qed.
+
+  Lemma force_spec : forall gas, frc_spec (force restore gas).
+  Proof.
+    induction gas as [|g IH]; intros P id s s' r HI H; simpl in H.
+    - inversion H; subst. apply spec_out_same; simpl; auto.
+    - destruct (nthN (cells s) id) as [c|] eqn:Ec.
+      2:{ inversion H; subst. apply spec_out_same; simpl; auto. right. apply D_force_nocell.
+          apply cowner_none. rewrite <- (inv_owner _ _ HI). apply cowner_none. exact Ec. }
+      destruct (base_state _ _ _ _ HI Ec) as [c0 [Ec0 Hown]].
+      destruct (check_guard restore s (owner c)) as [s1 o] eqn:Eg.
+      destruct (check_guard_spec _ _ _ _ _ HI Eg) as [Hm1 Ho].
+      destruct o as [e|].
+      + destruct Ho as [Hi1 Hwhy]. inversion H; subst.
+        split; [exact Hm1|]. split.
+        { intros [Hr|[v Hv]]; [apply Hi1; exact Hr|].
+          destruct Hwhy as [[_ He]|[gd [m [_ [_ [_ He]]]]]]; rewrite He in Hv; discriminate Hv. }
+        split.
+        { right. destruct Hwhy as [[Hng ->]|[gd [m [Hg [Hk [Hc ->]]]]]].
+          - eapply D_force_noguard; [exact Ec0 | rewrite Hown; exact Hng].
+          - eapply D_force_assert; [exact Ec0 | rewrite Hown; exact Hg | exact Hk | exact Hc]. }
+        intros v Hv. destruct Hwhy as [[_ He]|[gd [m [_ [_ [_ He]]]]]]; rewrite He in Hv; discriminate Hv.
+      + destruct Ho as [HI1 Hok].
+        pose proof (eval_with_spec _ g IH) as Hev.
+        destruct (do_thunk_spec _ Hev P id s1 s' r HI1 H) as [[Hm [Hi [Hd Hn]]] Hdone].
+        split; [eapply DoneMono_trans; eassumption|]. split; [exact Hi|]. split.
+        { destruct Hd as [Hd|Hd]; [left; exact Hd | right].
+          eapply D_force; [exact Ec0 | rewrite Hown; exact Hok | exact Hd]. }
+        intros v Hv j HN. inversion HN; subst. eapply Hn; [reflexivity | assumption].
+  Qed.
+End Sim.
+
+(* ------------------------------------------------------------------ *)
+(* requests and request sequences *)
+
+Definition agree (a b : resp) : Prop := a = b \/ is_overflow a = true \/ is_overflow b = true.
+
+Section Requests.
+  Variable s0 : store.
+  Variable restore : bool.
+
+  Definition den_resp (r : req) (o : resp) : Prop :=
+    match r with
+    | Eval _ id => exists res, Den s0 [] (TC id) res /\ o = resp_of false res
+    | Manifest _ id => exists res, Den s0 [] (TC id) res /\ o = resp_of true res
+    | Gc => o = RGc
+    end.
+
+  Lemma den_resp_det r o o' : den_resp r o -> den_resp r o' -> o = o'.
+  Proof.
+    destruct r; simpl.
+    - intros [x [Hx ->]] [y [Hy ->]]. rewrite (Den_det _ _ _ _ Hx _ Hy). reflexivity.
+    - intros [x [Hx ->]] [y [Hy ->]]. rewrite (Den_det _ _ _ _ Hx _ Hy). reflexivity.
+    - congruence.
+  Qed.
+
+  Lemma resp_of_overflow t : is_overflow (resp_of t (Err EOverflow)) = true.
+  Proof. reflexivity. Qed.
+
+  Lemma resp_of_fail t res : is_fail (resp_of t res) = false -> exists v, res = Ok v.
+  Proof. destruct res; simpl; try discriminate. intros _. eexists; reflexivity. Qed.
+
+  Lemma run_req_spec s r s' o : Inv s0 [] s -> run_req restore s r = (s', o) ->
+    ((restore = true \/ is_fail o = false) -> Inv s0 [] s') /\
+    (is_overflow o = true \/ den_resp r o).
+  Proof.
+    intros HI H.
+    assert (Hev : forall limit, ev_spec s0 restore (eval restore limit)).
+    { intros limit. apply eval_with_spec. apply force_spec. }
+    destruct r as [limit id|limit id|]; simpl in H.
+    - destruct (do_thunk restore (eval restore limit) s id) as [s1 res] eqn:E. inversion H; subst.
+      destruct (do_thunk_spec s0 restore _ (Hev limit) [] id s s' res HI E) as [[_ [Hi [Hd _]]] _].
+      split.
+      + intros [Hr|Hf]; apply Hi; [left; exact Hr | right; apply (resp_of_fail false); exact Hf].
+      + destruct Hd as [->|Hd]; [left; reflexivity | right; exists res; split; [exact Hd | reflexivity]].
+    - destruct (do_thunk restore (eval restore limit) s id) as [s1 res] eqn:E. inversion H; subst.
+      destruct (do_thunk_spec s0 restore _ (Hev limit) [] id s s' res HI E) as [[_ [Hi [Hd _]]] _].
+      split.
+      + intros [Hr|Hf]; apply Hi; [left; exact Hr | right; apply (resp_of_fail true); exact Hf].
+      + destruct Hd as [->|Hd]; [left; reflexivity | right; exists res; split; [exact Hd | reflexivity]].
+    - inversion H; subst. split; [intros _; exact HI | right; reflexivity].
+  Qed.
+
+  Lemma run_fresh_spec r : is_overflow (run_fresh restore s0 r) = true \/ den_resp r (run_fresh restore s0 r).
+  Proof.
+    unfold run_fresh. destruct (run_req restore s0 r) as [s' o] eqn:E. simpl.
+    exact (proj2 (run_req_spec _ _ _ _ (Inv_base s0) E)).
+  Qed.
+
+  Lemma shared_vs_fresh : forall rs s, Inv s0 [] s ->
+    (restore = true \/ Forall (fun o => is_fail o = false) (run_shared restore s rs)) ->
+    Forall2 agree (run_shared restore s rs) (map (run_fresh restore s0) rs).
+  Proof.
+    induction rs as [|r rest IH]; intros s HI Hok; simpl; [constructor|].
+    simpl in Hok. destruct (run_req restore s r) as [s' o] eqn:E.
+    destruct (run_req_spec _ _ _ _ HI E) as [Hi Hd].
+    constructor.
+    - destruct Hd as [Hd|Hd]; [right; left; exact Hd|].
+      destruct (run_fresh_spec r) as [Hf|Hf]; [right; right; exact Hf|].
+      left. eapply den_resp_det; eassumption.
+    - apply IH.
+      + apply Hi. destruct Hok as [Hr|Hall]; [left; exact Hr | right; inversion Hall; assumption].
+      + destruct Hok as [Hr|Hall]; [left; exact Hr | right; inversion Hall; assumption].
+  Qed.
+End Requests.
+
+(* the machine that restores on failure: every request answers as on a fresh store,
+   stack overflows (on either side) apart *)
+Theorem history_independent_if_restored : forall s rs,
+  Forall2 agree (run_shared true s rs) (map (run_fresh true s) rs).
+Proof. intros s rs. apply shared_vs_fresh; [apply Inv_base | left; reflexivity]. Qed.
+
+(* both machines: as long as no request fails on the long-lived store, memoisation is
+   invisible — each answer is the fresh answer (unless the fresh evaluation, which cannot
+   reuse memoised results, overflows the stack) *)
+Theorem memo_transparent : forall restore s rs,
+  Forall (fun o => is_fail o = false) (run_shared restore s rs) ->
+  Forall2 (fun a b => a = b \/ is_overflow b = true) (run_shared restore s rs) (map (run_fresh restore s) rs).
+Proof.
+  intros restore s rs Hok.
+  pose proof (shared_vs_fresh s restore rs s (Inv_base s) (or_intror Hok)) as H.
+  revert Hok H. generalize (run_shared restore s rs) (map (run_fresh restore s) rs).
+  induction 2 as [|a b la lb Hab Hrest IH]; [constructor|].
+  inversion Hok; subst. constructor; [|apply IH; assumption].
+  destruct Hab as [Hab|[Hab|Hab]]; [left; exact Hab | | right; exact Hab].
+  destruct a as [| | |[]| |]; simpl in *; discriminate.
+Qed.
+
+Lemma Forall2_agree_eq : forall la lb, Forall2 agree la lb ->
+  Forall (fun o => is_overflow o = false) la -> Forall (fun o => is_overflow o = false) lb -> la = lb.
+Proof.
+  induction 1 as [|a b la lb Hab Hrest IH]; intros Ha Hb; [reflexivity|].
+  inversion Ha; subst. inversion Hb; subst. f_equal; [|apply IH; assumption].
+  destruct Hab as [Hab|[Hab|Hab]]; [exact Hab | congruence | congruence].
+Qed.
+
+Theorem history_independent_if_restored_eq : forall s rs,
+  Forall (fun o => is_overflow o = false) (run_shared true s rs) ->
+  Forall (fun o => is_overflow o = false) (map (run_fresh true s) rs) ->
+  run_shared true s rs = map (run_fresh true s) rs.
+Proof. intros s rs Ha Hb. apply Forall2_agree_eq; [apply history_independent_if_restored | exact Ha | exact Hb]. Qed.
+
+Lemma boom_restored :
+  run_shared true boom_store boom_reqs = [RErr (EUser 7); RErr (EUser 7)] /\
+  run_shared true assert_store2 assert_reqs2 = [RErr (EAssert 4); RErr (EAssert 4)].
+Proof. vm_compute. split; reflexivity. Qed.
